@@ -28,3 +28,10 @@ Lemma bridge_block_constants :
   Gen.secs1.maxBlockLength = max_block_length /\ Gen.secs1.maxBlockNumber = max_block_number /\
   Gen.secs1.hsmsHeaderLen = hsms_header_len.
 Proof. repeat split; reflexivity. Qed.
+
+(** Line-control characters (C18). *)
+From GoSecs Require Import Secs1.Line Secs1.LineBytes.
+Lemma bridge_line_chars :
+  ch_code ENQ = Some Gen.secs1.enq /\ ch_code EOT = Some Gen.secs1.eot /\
+  ch_code ACK = Some Gen.secs1.ack /\ ch_code NAK = Some Gen.secs1.nak.
+Proof. repeat split; reflexivity. Qed.
